@@ -38,6 +38,8 @@ def canonical_rows(N):
 
 
 def canonical_cols(D, names):
+    if D == 0:
+        return [K('absent'), K('int', 0), K('name', 'NOPE'), K('slice', [None, None, None]), K('list', []), K('ell')]
     ks = [K('absent')]
     ks += [K('int', i) for i in range(-D, D + 1)]
     ks += [K('name', n) for n in names] + [K('name', 'NOPE')]
@@ -341,7 +343,9 @@ class C04Machine(Machine):
                 continue
             rows, cols = op['rows'], op['cols']
             rf, cf = ix.form(rows), ix.form(cols)
-            other = cf in OTHER_COLS
+            # two-part keys on 1-D samples are outside what the property defines (which axis does the second part
+            # address?): like the "other forms" they may be refused or must agree with plain indexing on the values
+            other = cf in OTHER_COLS or (mh.role != '2d' and cols['t'] != 'absent')
             key = ix.user_key(rows, cols)
             site0 = '%s|%s|%s|%s|d%d' % (mh.role, rf, cf, op['op'], min(depth, 3))
             if op['op'] == 'get':
